@@ -44,10 +44,31 @@ theorem find_name_of_nodup {fs : List FieldDecl} (hnd : (fs.map (·.name)).Nodup
     obtain ⟨hg, hn⟩ := find_name_some hfind
     rw [name_inj hnd hg hf hn]
 
+/-! ## `find?` by name, never matching the blank name `"_"` -/
+
+theorem find_blank_eq {fs : List FieldDecl} {s : String} (hs : s ≠ "_") :
+    fs.find? (fun f => f.name == s && s != "_") = fs.find? (fun f => f.name == s) := by
+  have : (fun f : FieldDecl => f.name == s && s != "_") = (fun f => f.name == s) := by
+    funext f; simp [hs]
+  rw [this]
+
+theorem find_blank_some {fs : List FieldDecl} {s : String} {f : FieldDecl}
+    (h : fs.find? (fun f => f.name == s && s != "_") = some f) : f ∈ fs ∧ f.name = s ∧ s ≠ "_" := by
+  refine ⟨List.mem_of_find?_eq_some h, ?_⟩
+  have := List.find?_some h
+  simpa using this
+
+theorem find_blank_none {fs : List FieldDecl} {s : String} :
+    fs.find? (fun f => f.name == s && s != "_") = none ↔ (s = "_" ∨ ∀ f ∈ fs, f.name ≠ s) := by
+  by_cases hs : s = "_"
+  · subst hs; simp
+  · rw [find_blank_eq hs, find_name_none]; simp [hs]
+
 /-! ## `checkField` -/
 
 theorem checkField_exact {fs : List FieldDecl} {s : String} {f : FieldDecl}
-    (h : checkField fs (.str s) = .ok f) : f ∈ fs ∧ f.name = s ∧ f.prevented = false := by
+    (h : checkField fs (.str s) = .ok f) :
+    f ∈ fs ∧ f.name = s ∧ f.prevented = false ∧ f.name ≠ "_" := by
   simp only [checkField] at h
   split at h
   · cases h
@@ -56,12 +77,12 @@ theorem checkField_exact {fs : List FieldDecl} {s : String} {f : FieldDecl}
     · cases h
     · rename_i hp
       cases h
-      obtain ⟨h1, h2⟩ := find_name_some hg
-      exact ⟨h1, h2, by simpa using hp⟩
+      obtain ⟨h1, h2, h3⟩ := find_blank_some hg
+      exact ⟨h1, h2, by simpa using hp, by rw [h2]; exact h3⟩
 
 theorem checkField_unknown_iff {fs : List FieldDecl} {s : String} :
-    checkField fs (.str s) = .error (.notField s) ↔ ∀ f ∈ fs, f.name ≠ s := by
-  rw [← find_name_none]
+    checkField fs (.str s) = .error (.notField s) ↔ (s = "_" ∨ ∀ f ∈ fs, f.name ≠ s) := by
+  rw [← find_blank_none]
   simp only [checkField]
   constructor
   · intro h
@@ -71,31 +92,37 @@ theorem checkField_unknown_iff {fs : List FieldDecl} {s : String} :
   · intro h
     rw [h]
 
-theorem checkField_unknown {fs : List FieldDecl} {s : String} (h : ∀ f ∈ fs, f.name ≠ s) :
+theorem checkField_unknown {fs : List FieldDecl} {s : String} (h : s = "_" ∨ ∀ f ∈ fs, f.name ≠ s) :
     checkField fs (.str s) = .error (.notField s) :=
   checkField_unknown_iff.mpr h
 
+/-- the blank name never denotes a field, whatever the struct declares -/
+theorem checkField_blank (fs : List FieldDecl) : checkField fs (.str "_") = .error (.notField "_") :=
+  checkField_unknown (.inl rfl)
+
 theorem checkField_prevented {fs : List FieldDecl} {s : String} {f : FieldDecl}
-    (hnd : (fs.map (·.name)).Nodup) (hf : f ∈ fs) (hn : f.name = s) (hp : f.prevented = true) :
+    (hnd : (fs.map (·.name)).Nodup) (hf : f ∈ fs) (hn : f.name = s) (hb : s ≠ "_")
+    (hp : f.prevented = true) :
     checkField fs (.str s) = .error (.prevented s) := by
   subst hn
-  simp [checkField, find_name_of_nodup hnd hf, hp]
+  simp only [checkField, find_blank_eq hb, find_name_of_nodup hnd hf, hp, if_true]
 
 theorem checkField_found {fs : List FieldDecl} {f : FieldDecl}
-    (hnd : (fs.map (·.name)).Nodup) (hf : f ∈ fs) (hp : f.prevented = false) :
+    (hnd : (fs.map (·.name)).Nodup) (hf : f ∈ fs) (hb : f.name ≠ "_") (hp : f.prevented = false) :
     checkField fs (.str f.name) = .ok f := by
-  simp [checkField, find_name_of_nodup hnd hf, hp]
+  simp [checkField, find_blank_eq hb, find_name_of_nodup hnd hf, hp]
 
 theorem checkField_nonliteral (fs : List FieldDecl) : checkField fs .other = .error .notString := rfl
 
 /-- every outcome of `checkField` on a literal (used for the rejection theorem) -/
 theorem checkField_ok_name {fs : List FieldDecl} {a : FieldArg} {f : FieldDecl}
-    (h : checkField fs a = .ok f) : a = FieldArg.str f.name ∧ f ∈ fs ∧ f.prevented = false := by
+    (h : checkField fs a = .ok f) :
+    a = FieldArg.str f.name ∧ f ∈ fs ∧ f.prevented = false ∧ f.name ≠ "_" := by
   cases a with
   | other => cases h
   | str s =>
-    obtain ⟨h1, h2, h3⟩ := checkField_exact h
-    exact ⟨by rw [h2], h1, h3⟩
+    obtain ⟨h1, h2, h3, h4⟩ := checkField_exact h
+    exact ⟨by rw [h2], h1, h3, h4⟩
 
 /-! ## `mapM` in `Except` -/
 
@@ -147,36 +174,59 @@ theorem mapM_error_of_mem {α β ε : Type} (f : α → Except ε β) :
 theorem mapM_checkField_spec {fs : List FieldDecl} {args : List FieldArg} {sel : List FieldDecl}
     (h : args.mapM (checkField fs) = .ok sel) :
     sel.length = args.length ∧ ∀ (i : Nat) a f, args[i]? = some a → sel[i]? = some f →
-      a = FieldArg.str f.name ∧ f ∈ fs ∧ f.prevented = false := by
+      a = FieldArg.str f.name ∧ f ∈ fs ∧ f.prevented = false ∧ f.name ≠ "_" := by
   obtain ⟨h1, h2⟩ := mapM_ok_get _ _ _ h
   exact ⟨h1, fun i a f ha hf => checkField_ok_name (h2 i a f ha hf)⟩
 
 /-! ## `structArgs`, `structProviderArgs`, `fieldsOfArgs` -/
 
 theorem structArgs_star (fs : List FieldDecl) :
-    structArgs fs [.str "*"] = .ok (fs.filter (fun f => !f.prevented)) := by
+    structArgs fs [.str "*"] = .ok (fs.filter (fun f => !f.prevented && f.name != "_")) := by
   have : allFields [.str "*"] = true := by decide
   simp [structArgs, this]
+
+theorem structArgs_star_sound {fs sel : List FieldDecl} (h : structArgs fs [.str "*"] = .ok sel) :
+    ∀ f ∈ sel, f ∈ fs ∧ f.prevented = false ∧ f.name ≠ "_" := by
+  rw [structArgs_star] at h
+  cases h
+  intro f hf
+  simpa [List.mem_filter] using hf
+
+theorem structArgs_star_complete {fs sel : List FieldDecl} (h : structArgs fs [.str "*"] = .ok sel) :
+    ∀ f ∈ fs, f.prevented = false → f.name ≠ "_" → f ∈ sel := by
+  rw [structArgs_star] at h
+  cases h
+  intro f hf hp hb
+  simp [List.mem_filter, hf, hp, hb]
+
+theorem structArgs_star_order {fs sel : List FieldDecl} (h : structArgs fs [.str "*"] = .ok sel) :
+    sel.Sublist fs := by
+  rw [structArgs_star] at h
+  cases h
+  exact List.filter_sublist
 
 theorem structArgs_named {fs : List FieldDecl} {args : List FieldArg} {sel : List FieldDecl}
     (hall : allFields args = false) (h : structArgs fs args = .ok sel) :
     sel.length = args.length ∧ ∀ (i : Nat) a f, args[i]? = some a → sel[i]? = some f →
-      a = FieldArg.str f.name ∧ f ∈ fs ∧ f.prevented = false := by
+      a = FieldArg.str f.name ∧ f ∈ fs ∧ f.prevented = false ∧ f.name ≠ "_" := by
   simp only [structArgs, hall] at h
   exact mapM_checkField_spec h
 
 theorem checkField_rejects {fs : List FieldDecl} {a : FieldArg}
-    (h : a = .other ∨ ∃ s, a = .str s ∧ ((∀ f ∈ fs, f.name ≠ s) ∨
+    (h : a = .other ∨ ∃ s, a = .str s ∧ (s = "_" ∨ (∀ f ∈ fs, f.name ≠ s) ∨
       ∃ f ∈ fs, f.name = s ∧ f.prevented ∧ (fs.map (·.name)).Nodup)) :
     ∃ e, checkField fs a = .error e := by
-  rcases h with rfl | ⟨s, rfl, h | ⟨f, hf, hn, hp, hnd⟩⟩
+  rcases h with rfl | ⟨s, rfl, hb | h | ⟨f, hf, hn, hp, hnd⟩⟩
   · exact ⟨_, rfl⟩
-  · exact ⟨_, checkField_unknown h⟩
-  · exact ⟨_, checkField_prevented hnd hf hn hp⟩
+  · exact ⟨_, checkField_unknown (.inl hb)⟩
+  · exact ⟨_, checkField_unknown (.inr h)⟩
+  · by_cases hb : s = "_"
+    · exact ⟨_, checkField_unknown (.inl hb)⟩
+    · exact ⟨_, checkField_prevented hnd hf hn hb hp⟩
 
 theorem structArgs_rejects {fs : List FieldDecl} {args : List FieldArg} {a : FieldArg}
     (hall : allFields args = false) (ha : a ∈ args)
-    (h : a = .other ∨ ∃ s, a = .str s ∧ ((∀ f ∈ fs, f.name ≠ s) ∨
+    (h : a = .other ∨ ∃ s, a = .str s ∧ (s = "_" ∨ (∀ f ∈ fs, f.name ≠ s) ∨
       ∃ f ∈ fs, f.name = s ∧ f.prevented ∧ (fs.map (·.name)).Nodup)) :
     ∃ e, structArgs fs args = .error e := by
   simp only [structArgs, hall]
@@ -224,7 +274,7 @@ theorem structProviderArgs_error_passes {fs : List FieldDecl} {args : List Field
 theorem fieldsOfArgs_spec {fs : List FieldDecl} {args : List FieldArg} {sel : List FieldDecl}
     (hlen : args.length ≤ fs.length) (h : fieldsOfArgs fs args = .ok sel) :
     sel.length = args.length ∧ ∀ (i : Nat) a f, args[i]? = some a → sel[i]? = some f →
-      a = FieldArg.str f.name ∧ f ∈ fs ∧ f.prevented = false := by
+      a = FieldArg.str f.name ∧ f ∈ fs ∧ f.prevented = false ∧ f.name ≠ "_" := by
   have : ¬ fs.length < args.length := by omega
   simp only [fieldsOfArgs, this, if_false] at h
   exact mapM_checkField_spec h
@@ -242,7 +292,7 @@ theorem fieldsOfArgs_ok_len {fs : List FieldDecl} {args : List FieldArg} {sel : 
 
 theorem fieldsOfArgs_rejects {fs : List FieldDecl} {args : List FieldArg} {a : FieldArg}
     (ha : a ∈ args)
-    (h : a = .other ∨ ∃ s, a = .str s ∧ ((∀ f ∈ fs, f.name ≠ s) ∨
+    (h : a = .other ∨ ∃ s, a = .str s ∧ (s = "_" ∨ (∀ f ∈ fs, f.name ≠ s) ∨
       ∃ f ∈ fs, f.name = s ∧ f.prevented ∧ (fs.map (·.name)).Nodup)) :
     ∃ e, fieldsOfArgs fs args = .error e := by
   simp only [fieldsOfArgs]
@@ -254,7 +304,7 @@ theorem fieldsOfArgs_rejects {fs : List FieldDecl} {args : List FieldArg} {a : F
 theorem fieldsOfArgs_star_literal {fs : List FieldDecl} (h : ∀ f ∈ fs, f.name ≠ "*") (h1 : 1 ≤ fs.length) :
     fieldsOfArgs fs [.str "*"] = .error (.notField "*") := by
   have : ¬ fs.length < 1 := by omega
-  simp [fieldsOfArgs, this, List.mapM_cons, checkField_unknown h]
+  simp [fieldsOfArgs, this, List.mapM_cons, checkField_unknown (.inr h)]
   rfl
 
 end WireP.FrontProofs
